@@ -147,8 +147,10 @@ META = {
     "category": "proof+search",
     "technique": "Coq ownership theorems (model level) + race-detector search with schedule perturbation",
     "text": ("Model-level Coq theorems on the C27 heap model: a background copy (job, pipeline stage, process substitution, "
-             "Runner.Subshell) never stores into a cell that existed when it was created, for every operation list; the parent "
-             "thread stores only into its private roots and cells it allocates later (thread-modular, partial); `wait gN` returns "
+             "Runner.Subshell) never stores into a cell that existed when it was created, for every operation list; for every "
+             "interleaving of parent and copy operations (C32_no_shared_writes, any schedule) no thread writes a shared cell or a "
+             "cell of the other thread and no root pointer crosses; C32_copy_unaffected_by_parent holds under a pointer-closure "
+             "hypothesis on the fork state (instantiated on a concrete parent, not discharged in general); `wait gN` returns "
              "job N's status for every interleaving of job starts and completions (bgProcs append-only, exit written before done "
              "is closed). Search: the harness built with -race runs generated concurrent programs with random sleeps/yields at "
              "every command; race reports and wrong wait statuses are failures."),
